@@ -122,6 +122,11 @@ def run(ctx):
                     if o[1].endswith("get_event_by_id") and any(strip_sites(x) in arg_plain for x in o[2]
                                                                 if x[0] != "param"):
                         linked = True
+                    # ... also when the lookup by id is written out: the event at the id index's entry for that id
+                    if o[1].endswith("get_event_by_offset"):
+                        for q in find_values(o, lambda x: x[0] == "call" and x[1].endswith("get_offset_by_id")):
+                            if any(strip_sites(x) in arg_plain for x in q[2] if x[0] != "param"):
+                                linked = True
             if linked:
                 good.append(node)
         absent_ok = []
@@ -131,7 +136,7 @@ def run(ctx):
                 for f in s.edge_facts(fn, node):
                     if f[0] == "variant" and f[2] == 0:
                         V = f[1]
-                        for o in find_values(V, lambda x: x[0] == "call" and x[1].endswith("get_event_by_id")):
+                        for o in find_values(V, lambda x: x[0] == "call" and (x[1].endswith("get_event_by_id") or x[1].endswith("get_offset_by_id"))):
                             # discriminant 0 of the Option payload: None
                             if V[0] == "proj" and any(strip_sites(x) in arg_plain for x in o[2] if x[0] != "param"):
                                 absent_ok.append(node)
